@@ -10,7 +10,7 @@ mod strategy;
 mod uist;
 
 fn usage() -> ! {
-    eprintln!("usage: harness <component> gen <seed> <cases> <flavour> <ops_out>\n       harness <component> run <ops_in> <annot_out> <impl_out>");
+    eprintln!("usage: harness <component> gen <seed> <cases> <flavour> <ops_out>\n       harness <component> run <ops_in> <annot_out> <impl_out>\n       harness http-uist|http-jura conc <seed> <clients> <rounds> <steps>");
     std::process::exit(2)
 }
 
@@ -53,6 +53,14 @@ fn main() {
             "http-jura" => http::run::<http::J>(&a[3], &a[4], &a[5]),
             _ => usage(),
         },
+        (c, "conc") if a.len() == 7 => {
+            let (seed, tasks, rounds, steps): (u64, usize, usize, usize) = (a[3].parse().expect("seed"), a[4].parse().expect("clients"), a[5].parse().expect("rounds"), a[6].parse().expect("steps"));
+            match c {
+                "http-uist" => http::conc::<http::U>(seed, tasks, rounds, steps),
+                "http-jura" => http::conc::<http::J>(seed, tasks, rounds, steps),
+                _ => usage(),
+            }
+        }
         _ => usage(),
     }
 }
